@@ -523,6 +523,9 @@ class Analysis:
         if isinstance(test, ast.Call) and isinstance(test.func, ast.Name) and test.func.id == 'isinstance' and len(test.args) == 2 \
                 and isinstance(test.args[0], ast.Name):
             name, is_container = test.args[0].id, truth
+        elif isinstance(test, ast.Call) and isinstance(test.func, ast.Name) and test.func.id == 'isinstance' and len(test.args) == 2 \
+                and isinstance(test.args[0], ast.Attribute) and isinstance(test.args[0].value, ast.Name) and test.args[0].value.id == 'self':
+            name, is_container = 'self.' + test.args[0].attr, truth
         elif isinstance(test, ast.Compare) and len(test.ops) == 1 and isinstance(test.left, ast.Name) \
                 and isinstance(test.comparators[0], ast.Constant) and test.comparators[0].value is None:
             if isinstance(test.ops[0], (ast.Is, ast.Eq)):
@@ -546,6 +549,10 @@ class Analysis:
                     self.bind(t, objs, kind)
                 else:
                     self.store(t, s)
+                    if isinstance(t, ast.Attribute) and isinstance(t.value, ast.Name) and t.value.id == 'self':
+                        # which object a settings attribute holds at exit (the caller's own, or a private one): kept in the environment so that it is
+                        # merged over branches like a local name
+                        self.env['self.' + t.attr] = set(self.expand(objs)) or {F}
         elif isinstance(s, ast.AnnAssign):
             if s.value is not None:
                 self.bind(s.target, self.o(s.value), self.k(s.value)) if isinstance(s.target, ast.Name) else self.store(s.target, s)
